@@ -247,8 +247,8 @@ def run(out):
                 cases.append((g, sigma, 0, (), out.seed))
     # point-directed histories on the single-slab grids
     quick = out.tier == 'quick'
-    dgrids = ['sq3g', 'L3g'] if quick else ['sq3g', 'sq4g', 'L3g', 'L4g', 'int2o']
-    depth = [(4, 6)] if quick else [(a, b) for a in range(0, 5) for b in range(0, 7) if a + b >= 3]
+    dgrids = ['sq3g', 'L3g'] if quick else ['sq3g', 'L3g', 'L4g', 'int2o']
+    depth = [(4, 6)] if quick else [(0, 3), (0, 6), (2, 0), (2, 3), (2, 6), (4, 0), (4, 3), (4, 6), (3, 5), (1, 4)]
     for g in dgrids:
         sm, tm, glued = GRIDS19[g]
         corners = [(0, i, top, right) for i in range(len(sm)) for top in (0, 1) for right in (0, 1)]
@@ -264,7 +264,7 @@ def run(out):
         report.merge_worker(out, r, part='%s sigma=%d%s' % (c[0], c[1], '' if isinstance(c[2], int) else ' directed'))
     out.bounds = dict(grids={g: dict(space_cells_in_units_of_w=GRIDS19[g][0], slabs_in_units_of_tau=GRIDS19[g][1],
                                      glued=GRIDS19[g][2]) for g in cfg['grids']}, history_before_grading=cfg['hist'],
-                      directed_histories='ks <= 4 space and kt <= 6 time bisections of the leaf at a corner point of a root cell (%s)' % ('subset' if quick else 'all with ks + kt >= 3, three orders'), sigma=cfg['sigmas'], K=K,
+                      directed_histories='ks <= 4 space and kt <= 6 time bisections of the leaf at a corner point of a root cell (%s)' % ('(4,6), space first, corners at t = 0' if quick else 'ten (ks,kt) combinations, three orders, all corners'), sigma=cfg['sigmas'], K=K,
                       root_ratio='w, tau symbolic with 1/%d <= w^sigma/tau <= %d (bounds the sweeps); 1/%d .. %d for the directed histories' % (RATIO, RATIO, RATIO_DIRECTED, RATIO_DIRECTED),
                       decisions_per_path=6000)
     out.outside = ['sigma = 1.5 (fractional power)', 'unit-cell ratios beyond the stated window',
